@@ -196,6 +196,8 @@ def has_nan(T, v):
 def values(T, frozen=False, top=True):
     """Deterministic list of non-missing values of T.  `frozen`: hashable containers (set elements, dict keys).
     `top`: the value is the whole literal (structs then get every field permutation, nested ones a short selection)."""
+    if T[0] != 'struct' or len(T[1]) < 2:
+        top = False  # only structs with 2+ fields have a larger whole-literal domain
     key = (repr(T), frozen, top)
     if key not in _vals_cache:
         _vals_cache[key] = _values(T, frozen, top)
@@ -344,8 +346,11 @@ def _values(T, frozen, top):
 
             decl = list(out)
             re_full, re_short = c32._reordered(list(T[1]), decl, frozen)
-            out = decl + (re_full if top else re_short)
-            if not top:
+            # every permutation (and dicts in every order) for whole-literal structs whose fields are leaves or that
+            # have 3+ fields; the short selection (reversed Struct + reversed dict) everywhere else
+            full = top and (len(fts) >= 3 or depth(T) <= 1)
+            out = decl + (re_full if full else re_short)
+            if not full:
                 # nested selection: also one reversed value whose missing-field pattern is not symmetric, so that
                 # missing bits taken by position instead of by name show up one level down as well
                 def asym(v):
@@ -839,7 +844,7 @@ def check(tier, seed, procs):
                       if tier == 'quick' else
                       'depth<=2 complete (binary constructors over all pairs of depth<=1 types); depth 3 = array / '
                       'struct / dict-value / tuple wrappers around every unary depth-2 type')
-                   + '; plus 3/4/9/10/17-field structs (top level and one level inside array / dict value / tuple / struct / interval) and 9-field tuples; values: per-type covering domains (see values()), every struct with >= 2 fields also as hail Struct with permuted fields (all permutations up to 3 fields, reversed + one rotation beyond) and as plain dict in declared and permuted order (nested: reversed only)'),
+                   + '; plus 3/4/9/10/17-field structs (top level and one level inside array / dict value / tuple / struct / interval) and 9-field tuples; values: per-type covering domains (see values()), every struct with >= 2 fields also as hail Struct with permuted fields (all permutations up to 3 fields, reversed + one rotation beyond) and as plain dict in declared and permuted order (nested, or 2-field structs of depth 2+: reversed only, one with all fields present and one with an asymmetric missing pattern)'),
         'types': tot['types'],
         'types_by_depth': {str(k): v for k, v in sorted(by_depth.items())},
         'cases_with_missing': tot['with_missing'],
